@@ -22,6 +22,9 @@ PROPERTY = "C11"
 DRIVER = "drv_batch"
 THEOREMS = [
     "C11.early_orig_intact",
+    "C11.statements_before_drop_target_tmp",
+    "C11.safe_statement_keeps_original",
+    "C11.early_indexes_intact",
     "C11.retrievable",
     "C11.late",
     "C11.superset",
